@@ -201,6 +201,9 @@ func fmtArg(fr *frame, itf iface) interface{} {
 		return nil
 	}
 	if s, ok := v.(sv); ok {
+		if s.t.kind == KInt || s.t.kind == KWide {
+			return fmtShim{text: fr.i.p.symMarker(s.t)}
+		}
 		return fmtShim{text: "<sym " + s.t.String() + ">"}
 	}
 	if itf.t != nil {
